@@ -34,7 +34,7 @@ ASSUMPTIONS = [
 @st.composite
 def union_case(draw):
     o = gens.opts(dynamic=False, wchar=False, void=False, signed_flags=False, max_fields=4, max_depth=2, hazard=False, floats=draw(st.booleans()), anon_weight=3, zero_len=False, bits_weight=2, struct_weight=4)
-    cfg = draw(gens.config())
+    cfg = draw(gens.config(flip=True))
     names = gens.NameSrc(False)
     defs = []
     u = draw(gens.struct_type(o, defs, names, 2, kind="union", name=None))
@@ -51,7 +51,17 @@ def union_case(draw):
     for _ in range(draw(st.integers(2, 10))):
         k = draw(st.sampled_from(["member", "member", "nested", "nested", "nested", "reparse", "kw", "default", "deep", "deep"]))
         ops.append([k, draw(st.integers(0, 1000)), draw(st.binary(min_size=40, max_size=40)).hex()])
-    return {"defs": defs, "root": "Root", "cfg": cfg, "data": data.hex(), "wrapped": wrapped, "ops": ops}
+    case = {"defs": defs, "root": "Root", "cfg": cfg, "data": data.hex(), "wrapped": wrapped, "ops": ops}
+    named_tail = 0
+    for f_ in reversed(u["fields"]):
+        if f_.get("name") is None:
+            break
+        named_tail += 1
+    if not wrapped and len(u["fields"]) >= 2 and named_tail and draw(st.integers(0, 2)) == 0:
+        # the union is first declared without its last k members, USED (parsed, dumped, default-constructed, compared), and
+        # then grown to the full definition through the public API (add_field, one by one or as one start_update batch)
+        case["grow"] = [draw(st.integers(1, min(named_tail, len(u["fields"]) - 1))), draw(st.booleans())]
+    return case
 
 
 @st.composite
@@ -173,12 +183,54 @@ def _decode_members(sem, u, buf):
     return out
 
 
+def _load_grown(case, m):
+    """Root (a union) is loaded without its last k members, used, and then completed through add_field."""
+    k, batch = case["grow"]
+    rootdef = [d for d in case["defs"] if d["n"] == "Root"][0]
+    fields = rootdef["t"]["fields"]
+    short = dict(rootdef, t=dict(rootdef["t"], fields=fields[:-k]))
+    helper = {"k": "structdef", "n": "Root__tail", "t": {"k": "st", "kind": "struct", "name": None, "fields": fields[-k:]}}
+    defs0 = [d for d in case["defs"] if d["n"] != "Root"] + [short]
+    cs = common.load(dict(case, defs=defs0))
+    r = lib(cs.load, libside.render_def(helper), compiled=False, align=bool(case["cfg"]["align"]))
+    if isinstance(r, Err):
+        raise Violation("definition-rejected", f"{libside.render_def(helper)}: {r}", r.where)
+    tail_types = [f_.type for f_ in cs.resolve("Root__tail").__fields__]
+    U = cs.Root
+
+    def use():
+        o = U(bytes((i * 37 + 1) % 251 for i in range(len(U))))
+        return [o.dumps(), U().dumps(), o == U(o.dumps()), len(o), bool(U())]
+
+    r = lib(use)
+    if isinstance(r, Err):
+        raise Violation("intermediate-union-unusable", f"the union declared without its last {k} members raised {r}: {common.describe(dict(case, defs=defs0))}", r.where)
+
+    def grow():
+        if batch:
+            with U.start_update():
+                for f_, ft in zip(fields[-k:], tail_types):
+                    U.add_field(f_["name"], ft)
+        else:
+            for f_, ft in zip(fields[-k:], tail_types):
+                U.add_field(f_["name"], ft)
+
+    r = lib(grow)
+    if isinstance(r, Err):
+        raise Violation("add-field-raised", f"completing the union through add_field raised {r}: {common.describe(case)}", r.where)
+    return cs
+
+
 def _run_model(case, m, mode, ctx=None):
     """Execute the history against the library under one union-writer model. Raises Violation on disagreement."""
     model = Model(case["defs"], case["cfg"], mode)
     sem = model.sem
     cfg = case["cfg"]
-    cs = common.load(case)
+    cs = _load_grown(case, m) if case.get("grow") else common.load(case)
+    if case["cfg"].get("load_endian") and ctx is not None:
+        ctx.count("endian-switched-after-load")
+    if case.get("grow") and ctx is not None:
+        ctx.count("union-grown-after-use:" + ("batch" if case["grow"][1] else "field-by-field"))
     root = sem.res(common.ROOT)
     u = root if not case["wrapped"] else sem.res(root["fields"][1]["t"])
     usize = sem.size(u)
